@@ -79,7 +79,13 @@ func RegisterInternalMessage[T any](messageName string, reader InternalMessageRe
 }
 
 func QueryMessageDesc(message any) *MessageDesc {
-	tof := reflect.TypeOf(message).Elem()
+	// nil 消息或非指针消息不可能是已注册的内部消息（注册表以指针元素类型为键），
+	// 交由外部编解码器处理；此前对它们调用 Elem() 会直接 panic。
+	typ := reflect.TypeOf(message)
+	if typ == nil || typ.Kind() != reflect.Ptr {
+		return outsideMessageDesc
+	}
+	tof := typ.Elem()
 	desc, ok := internalMessageTypeOfDesc[tof]
 	if ok {
 		return desc
